@@ -34,3 +34,16 @@ Print Assumptions C02_error_object_wellformed.
 Theorem C02_response_object_wellformed : forall f i v, wf_obj (resp_obj f i v) = true.
 Proof. exact wf_resp_obj. Qed.
 Print Assumptions C02_response_object_wellformed.
+
+(** do_POST answers 200 with that reply (the 500 path is unreachable under the hypothesis) *)
+Theorem C02_http_status : forall body sigs srvf srv dm (p : parse_outcome),
+  results_dumpable body (sv_jsonclass srv) ->
+  exists r, do_post body sigs srvf srv dm p = (200, r) /\ wf_reply r = true.
+Proof. exact http_status. Qed.
+Print Assumptions C02_http_status.
+
+(** whatever the callables return, the body do_POST sends is a well-formed reply (on the 500 path too) *)
+Theorem C02_http_body_always_wellformed : forall body sigs srvf srv dm (p : parse_outcome),
+  wf_reply (snd (do_post body sigs srvf srv dm p)) = true.
+Proof. exact http_body_always_wellformed. Qed.
+Print Assumptions C02_http_body_always_wellformed.
